@@ -6,15 +6,19 @@ import PyGqlModel.Props.C18
 import PyGqlModel.Props.C18_once
 import PyGqlModel.Props.C18_edit
 
+-- a FAILING `decide +kernel` must fail fast (the elaborator's diagnosis of a false instance would run for minutes):
+-- the kernel evaluation of the true instances is not subject to this limit
+set_option maxHeartbeats 3000
+
 namespace PyGql.Props.C18
 open PyGql.Visit PyGql.Generated.VisitTable
 
-/-- W1–W3: the child positions of an executable document that are never entered
+/-- W1–W3 (what is left after fixes C18-W2b / C18-W3b: directives of variable definitions and variable definitions of
+    fragments ARE visited): the child positions of an executable document that are never entered
     (`query Q($v: [Int!] = 1 @d, $u: Int!) { ... on T { a } } fragment F($w: Int) on T { a }`) -/
 theorem gaps_executable : gaps witnessExec = some
-    [("VariableDefinition", "variable"), ("ListType", "type"), ("VariableDefinition", "directives"),
-     ("NonNullType", "type"), ("InlineFragment", "type_condition"),
-     ("FragmentDefinition", "variable_definitions"), ("FragmentDefinition", "type_condition")] := by decide +kernel
+    [("VariableDefinition", "variable"), ("ListType", "type"), ("NonNullType", "type"),
+     ("InlineFragment", "type_condition"), ("FragmentDefinition", "type_condition")] := by decide +kernel
 
 /-- W4: the `description` of none of the ten describable kinds is entered; nothing else is missing in an SDL document -/
 theorem gaps_type_system : gaps witnessSdl = some
@@ -167,11 +171,11 @@ def pathsList (name : String) (i : Nat) : List Node → List (List (String × Op
 end
 
 /-- non-vacuity: EVERY non-name position of `{ a(x: 1) @d b { c } }` (10 positions) is reached by today's traversal,
-    so `edits_today` applies to all of them; in the executable witness 14 positions are reached and 11 are not (W1–W3) -/
+    so `edits_today` applies to all of them; in the executable witness 17 positions are reached and 8 are not (W1–W3, after fixes W2b / W3b) -/
 example : (pathsNode witnessSmall).length = 10 ∧
     (pathsNode witnessSmall).all (fun p => reachVB table witnessSmall p) = true := by decide +kernel
-example : ((pathsNode witnessExec).filter (fun p => reachVB table witnessExec p)).length = 14 ∧
-    ((pathsNode witnessExec).filter (fun p => !reachVB table witnessExec p)).length = 11 := by decide +kernel
+example : ((pathsNode witnessExec).filter (fun p => reachVB table witnessExec p)).length = 17 ∧
+    ((pathsNode witnessExec).filter (fun p => !reachVB table witnessExec p)).length = 8 := by decide +kernel
 example : ReachV table witnessSmall pathB := reachVB_sound table _ _ (by decide +kernel)
 
 /-- structurally equal siblings (`{ id name id friends { id } id }`, parsed without locations): deleting the SECOND `id`
@@ -200,5 +204,9 @@ example :
     let r : Node := .mk "FragmentSpread" 100 [("name", .one none), ("directives", .many [])]
     sameTree (visit table (actAt 10 fun _ => .replace r) 64 witnessSmall ()) (Spec.editAt pathB (.replace r) witnessSmall) = true := by
   decide +kernel
+
+/-- `ChainedVisitor`: a member's `SkipNode` is its own (holds with proposed fix C18-W8; without it the loop is aborted:
+    the members before the raiser are never left, the members after it never enter the node) -/
+theorem table_chain_personal_skip : chainPersonalSkip = true := by decide +kernel
 
 end PyGql.Props.C18
